@@ -28,12 +28,26 @@ def run(tier, seed):
                                       "--mode", rng.choice(["mem", "pers"]), "--ttl", "1", "--bias", "mem",
                                       "--lim", str(rng.choice([700, 1000, 1400, 3000]))]))
     viol, st = q.run_engine(PROP, tier, seed, INV, jobs, rd, fxv)
+    # concurrent part: racing creators / growers / deleters against limits that admit only some of
+    # them; memory_usage() sampled after every scheduler step and by a monitor thread (LinTrace MemBound)
+    import concengine as ce
+    from checks.c07 import collect
+    cst = {"traces": 0, "states": 0, "transitions": 0, "schedules": 0, "stalls": 0, "events": 0}
+    fam = ce.mem_family()
+    res = ce.run_dfs(fxv, rd, fam, "mem", maxsched=400 if tier == "quick" else 3000, preempt=2 if tier == "quick" else 3)
+    collect(PROP, res, rd, ["MemBound"], viol, cst)
+    free = [("free_lim_%d" % i, ["--seed", str(rng.randrange(1 << 30)), "--threads", "4", "--ops", "25", "--keys", "3",
+                                 "--rounds", "20", "--lim", str(rng.choice([400, 600, 900]))])
+            for i in range(4 if tier == "quick" else 24)]
+    collect(PROP, ce.run_free(fxv, rd, free), rd, ["MemBound"], viol, cst)
+    st["traces"] += cst["traces"]; st["states"] += cst["states"]; st["transitions"] += cst["transitions"]
+    st["events"] += cst["events"]
     cov = q.coverage_dict(
         st, sum(r.distinct for r in mc), sum(r.generated for r in mc),
         "one trace = one seeded program (creates, growing/shrinking updates, deletes, expiries, sweeps, "
         "flushes, reopen) with memory_usage() and len() compared after EVERY call against the sum over "
         "present keys of (size_of::<Record>() + key length + value length); memory limits 700..9000 bytes",
-        q.sample_events(st["sample_trace"]))
+        q.sample_events(st["sample_trace"]), extra={"concurrent_schedules": cst["schedules"]})
     return {"level": "model_checking", "coverage": cov, "violations": viol,
             "assumptions": ["per-record overhead read from size_of::<Record>() at run time"]}
 
